@@ -16,7 +16,7 @@ RULE = ("breadth-first exploration of ALL histories up to the depth bound over a
         "non-trivial = the transition pads a bar, splits with a remainder, splits into bars or builds a composition")
 ASSUMPTIONS = ["bool and numpy integer types do not count as 'integer type' for ticks"]
 REQUIRED_FLAGS = ["bar_padded", "split_with_remainder", "tokens_checked", "detokenised", "bars_split", "composition_built",
-                  "scaled", "wrapped_transpose"]
+                  "scaled", "wrapped_transpose", "split_many_equal_parts"]
 
 TOKEN_RE = re.compile(r"^[a-z]+(_\d+)*(-[a-z]+(_\d+)+)*$")
 _TOK = {}
@@ -41,6 +41,12 @@ def make_seed(i, p):
         return [a, lib.seq_abs([(0, 6, p + 7, 0, 70)], [], 30), []]
     if i == 4:   # 3/2: a bar shorter than its capacity, beside an empty track
         return [lib.seq_abs([(0, 24, p, 0, 64), (200, 12, p + 1, 0, 3)], [("ts", 0, 3, 2)], 230), Sequence(), []]
+    if i == 6:   # scale: fourteen 4/4 bars with a general pause of ten bars in the middle, beside a track of two bars
+        a = lib.seq_abs([(0, 12, p, 0, 64), (100, 24, p + 2, 0, 64), (1250, 12, p + 4, 0, 60), (1300, 30, p + 5, 0, 61)], [], 1344)
+        return [a, lib.seq_abs([(0, 6, p + 7, 0, 70), (110, 12, p + 8, 0, 71)], [], 150), []]
+    if i == 7:   # scale: 3/4, sixteen bars, forty notes, a rest of eleven bars; second track three bars, relative build
+        ns = [(6 * k, 5, p + k % 5, k % 2, 30 + k) for k in range(20)] + [(1000 + 7 * k, 6, p + k % 5, k % 2, 60 + k) for k in range(20)]
+        return [lib.seq_rel(ns, [("ts", 0, 3, 4)], 1152), lib.seq_rel([(0, 36, p + 1, 0, 64), (150, 12, p + 3, 0, 9)], [], None), []]
     # 7/8 then 5/16, ticks in the hundreds, unequal lengths
     return [lib.seq_abs([(0, 36, p, 0, 64), (90, 6, p + 2, 0, 64)], [("ts", 0, 7, 8), ("ts", 84, 5, 16)], 120),
             lib.seq_rel([(300, 12, p + 3, 0, 64)], [], None), []]
@@ -53,6 +59,19 @@ def _split(w, i):
         return "split_with_remainder"
     if pieces:
         w[i] = pieces[0]
+
+
+def _split_equal(c, k):
+    def f(w, i):
+        pieces = w[i].split([c] * k)
+        if not pieces:
+            return None
+        w[1 - i] = pieces[-1]
+        w[i] = pieces[0]
+        if len(pieces) > 1:
+            w[i].concatenate(pieces[1:])        # every piece stays reachable through the joined sequence
+        return "split_many_equal_parts"
+    return f
 
 
 def _bar(w, i, n=4, d=4):
@@ -136,6 +155,8 @@ UNARY = {
     "scale2": _u(lambda s: s.scale(2), "scaled"),
     "scale3": _u(lambda s: s.scale(3, quantise_afterwards=False), "scaled"),
     "split30": _split,
+    "split36x14": _split_equal(36, 14),
+    "split96x12": _split_equal(96, 12),
     "bar44": _bar,
     "bar32": _barsig(3, 2),
     "bar22": _barsig(2, 2),
@@ -160,11 +181,12 @@ OPNAMES = [f"{n}:{i}" for n in UNARY for i in (0, 1)] + list(BINARY)
 def context(tier, seed):
     depth = 3 if tier == "quick" else 4
     return {"p": [60, 40, 90][seed % 3], "depth": depth, "tier": tier,
-            "bounds": {"depth": depth, "operations": OPNAMES, "seeds": 6}}
+            "bounds": {"depth": depth, "operations": OPNAMES, "seeds": 8,
+                       "long_seeds": "seeds 6 and 7 (14-16 bars, rests of 10-11 bars) are explored to depth 2"}}
 
 
 def seeds(ctx):
-    return 6
+    return 8
 
 
 def apply(w, name):
@@ -194,6 +216,8 @@ def key_of(w, ctx):
 
 
 def enabled(w, seed_i, hist, ctx):
+    if seed_i >= 6 and len(hist) >= 2:
+        return []
     return OPNAMES
 
 
